@@ -269,6 +269,15 @@ def run_property(pid: str, tier: str, seed: int) -> int:
             violations.append({"what": v["key"], "replay": rfile, "suffix": ""})
         bounded_reports.append(data)
 
+    # ---------------- thorough tier: in-memory mutation audit of the contracts (informational)
+    mutation = []
+    if tier == "thorough" and os.environ.get("VERIF_MUTATION_AUDIT", "1") != "0":
+        slow = {u["unit"] for u in unit_reports if u.get("vcgen_s", 0) > 8 or u.get("obligations", 0) > 3000}
+        try:
+            mutation = units.mutation_audit(spec.__name__, unit_list, skip=slow)
+        except Exception as ex:
+            warnings.append(f"mutation audit did not complete: {ex!r}")
+
     # ---------------- verdict and evidence
     for f in known_hit.values():
         print(f"KNOWN-FINDING: property={pid} {f['what']}")
@@ -303,6 +312,7 @@ def run_property(pid: str, tier: str, seed: int) -> int:
         "rule": "; ".join(f"[{b['name']}] {b.get('rule', '')}" for b in bounded_reports if b.get("rule")) or "no bounded stand-in for this property",
         "samples": samples or [{"note": "no obligations generated"}],
         "exhaustive": False,
+        "mutation_audit": {"note": "in-memory AST mutants of each unit re-verified; killed = some obligation no longer discharged (refuted: counter-model; undecided: solver unknown / unsupported construct); survivors point at clauses the contracts do not pin down or at equivalent mutants; units with slow VC generation are skipped", "units": mutation},
         "known_findings_reported": sorted(known_hit),
         "violating_cases": [{"what": v["what"], "replay": v["replay"]} for v in violations],
         "warnings": warnings,
